@@ -445,5 +445,10 @@ def run(ctx):
                               'simplify rewrites %s only by simplifying each element or dropping never-matching constants' % which,
                               '%s rewrites self.%s as %s (in a helper): items that are not constants can be dropped or merged' % (q, which, t[:100]))
         ctx.floor('C12.6', ns, 2, 'list rewrites in ' + q)
+    # "a matcher that fails to parse is reported as an error and leaves the current one as it was": parse_and_join handles RuntimeError - that
+    # the parser signals every rejection with RuntimeError and lets nothing else out is C18.2; its findings are findings here
+    from . import c18 as _c18_12
+    _cm.lift(ctx, 'C12.1', 'rejection-is-a-RuntimeError', _c18_12, 'C18', ('C18.2',), 'text the matcher parser does not accept must come back as the RuntimeError parse_and_join reports', floor=8, soft=True)
+
     return ('path enumeration of parse_and_join (with a modelled parse failure), of join and of MatcherList.matches; typestate of the '
             'stored matchers. Decided: %s. Undecided: %s' % ('; '.join(ctx.decided), '; '.join(ctx.undecided)))
